@@ -30,31 +30,32 @@ func c11Schema() *hx.Schema {
 	// T1 declares the interface's fields differently from T0: an extra defaulted argument in front of g's,
 	// a covariant return type and an extra argument on o
 	g1Args := append([]*hx.Arg{{Name: "w", Type: hx.Named("Int"), Default: &seven}}, gArgs()...)
-	return &hx.Schema{Types: []*hx.TypeDef{
-		{Kind: hx.KEnum, Name: "E0", Values: []*hx.EnumValue{{Name: "RED"}, {Name: "GREEN"}, {Name: "OLD", Dirs: []hx.DirUse{{Name: "deprecated"}}}}},
-		{Kind: hx.KInput, Name: "In1", Inputs: []*hx.Arg{{Name: "x", Type: hx.Named("Float")}, {Name: "y", Type: hx.Named("Boolean").NN()}, {Name: "d", Type: hx.Named("Boolean"), Default: &yes}}},
-		{Kind: hx.KInput, Name: "In0", Inputs: []*hx.Arg{
-			{Name: "i", Type: hx.Named("Int")}, {Name: "s", Type: hx.Named("String"), Default: &dflt}, {Name: "r", Type: hx.Named("Int").NN()},
-			{Name: "e", Type: hx.Named("E0"), Default: &green}, {Name: "l", Type: hx.ListOf(hx.Named("Int").NN())}, {Name: "n", Type: hx.Named("In1")}}},
-		{Kind: hx.KInterface, Name: "I0", Fields: []*hx.Field{
-			{Name: "f", Type: hx.Named("String"), Args: fArgs()}, {Name: "g", Type: hx.Named("String"), Args: gArgs()},
-			{Name: "o", Type: hx.Named("I0"), Args: []*hx.Arg{kArg()}}, {Name: "n", Type: hx.Named("Int")}}},
-		// I1 and U1 start with T0 alone: a step may extend the schema so that T1 joins them
-		{Kind: hx.KInterface, Name: "I1", Fields: []*hx.Field{{Name: "n", Type: hx.Named("Int")}}},
-		{Kind: hx.KUnion, Name: "U1", Members: []string{"T0"}},
-		{Kind: hx.KObject, Name: "T0", Interfaces: []string{"I0", "I1"}, Fields: []*hx.Field{
-			{Name: "f", Type: hx.Named("String"), Args: fArgs()}, {Name: "g", Type: hx.Named("String"), Args: gArgs()},
-			{Name: "o", Type: hx.Named("T0"), Args: []*hx.Arg{kArg()}}, {Name: "n", Type: hx.Named("Int")}}},
-		{Kind: hx.KObject, Name: "T1", Interfaces: []string{"I0"}, Fields: []*hx.Field{
-			{Name: "f", Type: hx.Named("String"), Args: fArgs()}, {Name: "g", Type: hx.Named("String"), Args: g1Args},
-			{Name: "o", Type: hx.Named("T1"), Args: []*hx.Arg{kArg(), {Name: "tag", Type: hx.Named("String"), Default: &tag}}}, {Name: "n", Type: hx.Named("Int")},
-			{Name: "old", Type: hx.Named("Int"), Dirs: []hx.DirUse{{Name: "deprecated", Args: []hx.KV{{Key: "reason", V: hx.Str("gone")}}}}}}},
-		{Kind: hx.KUnion, Name: "U0", Members: []string{"T0", "T1"}},
-		{Kind: hx.KObject, Name: "Query", Fields: []*hx.Field{
-			{Name: "f", Type: hx.Named("String"), Args: fArgs()}, {Name: "g", Type: hx.Named("String"), Args: gArgs()},
-			{Name: "t", Type: hx.Named("T0")}, {Name: "ts", Type: hx.ListOf(hx.Named("T0"))},
-			{Name: "t1", Type: hx.Named("T1")}, {Name: "i", Type: hx.Named("I0")}, {Name: "is", Type: hx.ListOf(hx.Named("I0"))}, {Name: "u", Type: hx.Named("U0")}, {Name: "us", Type: hx.ListOf(hx.Named("U0"))}}},
-	}}
+	return &hx.Schema{Dirs: []*hx.DirDef{{Name: "round", On: []string{"FIELD", "INLINE_FRAGMENT", "FRAGMENT_SPREAD"}, Args: []*hx.Arg{{Name: "digits", Type: hx.Named("Int")}, {Name: "mode", Type: hx.Named("String")}}}},
+		Types: []*hx.TypeDef{
+			{Kind: hx.KEnum, Name: "E0", Values: []*hx.EnumValue{{Name: "RED"}, {Name: "GREEN"}, {Name: "OLD", Dirs: []hx.DirUse{{Name: "deprecated"}}}}},
+			{Kind: hx.KInput, Name: "In1", Inputs: []*hx.Arg{{Name: "x", Type: hx.Named("Float")}, {Name: "y", Type: hx.Named("Boolean").NN()}, {Name: "d", Type: hx.Named("Boolean"), Default: &yes}}},
+			{Kind: hx.KInput, Name: "In0", Inputs: []*hx.Arg{
+				{Name: "i", Type: hx.Named("Int")}, {Name: "s", Type: hx.Named("String"), Default: &dflt}, {Name: "r", Type: hx.Named("Int").NN()},
+				{Name: "e", Type: hx.Named("E0"), Default: &green}, {Name: "l", Type: hx.ListOf(hx.Named("Int").NN())}, {Name: "n", Type: hx.Named("In1")}}},
+			{Kind: hx.KInterface, Name: "I0", Fields: []*hx.Field{
+				{Name: "f", Type: hx.Named("String"), Args: fArgs()}, {Name: "g", Type: hx.Named("String"), Args: gArgs()},
+				{Name: "o", Type: hx.Named("I0"), Args: []*hx.Arg{kArg()}}, {Name: "n", Type: hx.Named("Int")}}},
+			// I1 and U1 start with T0 alone: a step may extend the schema so that T1 joins them
+			{Kind: hx.KInterface, Name: "I1", Fields: []*hx.Field{{Name: "n", Type: hx.Named("Int")}}},
+			{Kind: hx.KUnion, Name: "U1", Members: []string{"T0"}},
+			{Kind: hx.KObject, Name: "T0", Interfaces: []string{"I0", "I1"}, Fields: []*hx.Field{
+				{Name: "f", Type: hx.Named("String"), Args: fArgs()}, {Name: "g", Type: hx.Named("String"), Args: gArgs()},
+				{Name: "o", Type: hx.Named("T0"), Args: []*hx.Arg{kArg()}}, {Name: "n", Type: hx.Named("Int")}}},
+			{Kind: hx.KObject, Name: "T1", Interfaces: []string{"I0"}, Fields: []*hx.Field{
+				{Name: "f", Type: hx.Named("String"), Args: fArgs()}, {Name: "g", Type: hx.Named("String"), Args: g1Args},
+				{Name: "o", Type: hx.Named("T1"), Args: []*hx.Arg{kArg(), {Name: "tag", Type: hx.Named("String"), Default: &tag}}}, {Name: "n", Type: hx.Named("Int")},
+				{Name: "old", Type: hx.Named("Int"), Dirs: []hx.DirUse{{Name: "deprecated", Args: []hx.KV{{Key: "reason", V: hx.Str("gone")}}}}}}},
+			{Kind: hx.KUnion, Name: "U0", Members: []string{"T0", "T1"}},
+			{Kind: hx.KObject, Name: "Query", Fields: []*hx.Field{
+				{Name: "f", Type: hx.Named("String"), Args: fArgs()}, {Name: "g", Type: hx.Named("String"), Args: gArgs()},
+				{Name: "t", Type: hx.Named("T0")}, {Name: "ts", Type: hx.ListOf(hx.Named("T0"))},
+				{Name: "t1", Type: hx.Named("T1")}, {Name: "i", Type: hx.Named("I0")}, {Name: "is", Type: hx.ListOf(hx.Named("I0"))}, {Name: "u", Type: hx.Named("U0")}, {Name: "us", Type: hx.ListOf(hx.Named("U0"))}}},
+		}}
 }
 
 func c11Graph() *hx.Graph {
@@ -264,7 +265,10 @@ func (g *c11gen) fieldG(label string) string {
 }
 
 func (g *c11gen) dir(label string) string {
-	switch rapid.IntRange(0, 9).Draw(g.t, label+"dir") {
+	switch rapid.IntRange(0, 11).Draw(g.t, label+"dir") {
+	case 10:
+		// a directive of the application's own, its arguments written as variables
+		return rapid.SampledFrom([]string{" @round(digits: $i)", " @round(digits: $j, mode: $s)", " @round(mode: $sd) @skip(if: $b)", " @round(digits: 2)"}).Draw(g.t, label+"appDir")
 	case 0:
 		return " @skip(if: $b)"
 	case 1:
